@@ -66,6 +66,46 @@ def family(tier):
             for p in sols:
                 for meta in (0, 2):
                     F.append(("S", r, c, bits, p[0], p[-1], p, meta))
+    F += broadcast_family(tier)
+    return list(dict.fromkeys(F))
+
+
+def bits_of_graph(cl):
+    r, c = cl.shape[1:]
+    b = 0
+    for k, (d, i, j) in enumerate(R.lattice_edges(r, c)):
+        if cl[d, i, j]:
+            b |= 1 << k
+    return b
+
+
+def broadcast_family(tier):
+    """mazes of different shapes whose arrays are broadcasts / prefixes / transposes of one another: every graph of the degenerate
+    grids 1x1, 1x2, 2x1, 1x3, 3x1 together with its row / column tilings on 2xc, 3xc, rx2, rx3, empty and full grids of every
+    shape, each as plain, targeted and solved maze with the same start, end and solution (kept on row 0 / column 0)"""
+    F = []
+    members = []  # (r, c, bits, corridor axis or None)
+    shapes = [(1, 1), (1, 2), (2, 1), (1, 3), (3, 1), (2, 2), (2, 3), (3, 2), (3, 3)] + ([] if tier == "quick" else [(1, 4), (4, 1), (2, 4), (4, 2)])
+    for (r, c) in shapes:
+        members.append((r, c, 0))
+        members.append((r, c, (1 << len(R.lattice_edges(r, c))) - 1))
+    for (r, c) in [(1, 2), (1, 3), (2, 1), (3, 1)] + ([] if tier == "quick" else [(1, 4), (4, 1)]):
+        for bits, cl in R.all_graphs(r, c):
+            members.append((r, c, bits))
+            for k in (2, 3):
+                tiled = np.tile(cl, (1, k, 1)) if r == 1 else np.tile(cl, (1, 1, k))
+                members.append((tiled.shape[1], tiled.shape[2], bits_of_graph(tiled)))
+    members = list(dict.fromkeys(members))
+    for (r, c, bits) in members:
+        F.append(("L", r, c, bits, None, None, None, 0))
+        F.append(("T", r, c, bits, (0, 0), (0, 0), None, 0))
+        F.append(("S", r, c, bits, (0, 0), (0, 0), ((0, 0),), 0))
+        if c >= 2:
+            F.append(("T", r, c, bits, (0, 0), (0, 1), None, 0))
+            F.append(("S", r, c, bits, (0, 0), (0, 1), ((0, 0), (0, 1)), 0))
+        if r >= 2:
+            F.append(("T", r, c, bits, (0, 0), (1, 0), None, 0))
+            F.append(("S", r, c, bits, (0, 0), (1, 0), ((0, 0), (1, 0)), 0))
     return F
 
 
@@ -73,13 +113,26 @@ def expected_equal(a, b):
     return fingerprint(a) == fingerprint(b)
 
 
+def buildable_family(tier, res):
+    """the family; a member with in-grid ends that the library refuses to construct is a violation, not a harness error"""
+    out = []
+    for sp in family(tier):
+        try:
+            build(sp)
+            out.append(sp)
+        except ValueError as e:
+            res.fail(f"C09|endpoint|rejected|family|{sp[0]}", f"constructing {sp} (all coordinates inside the grid) raised ValueError: {str(e)[:150]}",
+                     dict(kind="build", spec=sp))
+    return out
+
+
 def pair_task(t, res):
-    F = family(t["tier"])
+    F = buildable_family(t["tier"], res)
     objs = [build(s) for s in F]
     # a second, independently built copy of every object: equal-but-distinct instances
     objs2 = [build(s) for s in F]
     lo, hi = t["range"]
-    for i in range(lo, hi):
+    for i in range(lo, min(hi, len(F))):
         a, sa = objs[i], F[i]
         for j in range(len(F)):
             sb = F[j]
@@ -148,7 +201,7 @@ def _detuple(x):
 def sets_and_datasets(tier, res):
     from maze_dataset import MazeDataset, MazeDatasetConfig
 
-    F = family(tier)
+    F = buildable_family(tier, res)
     objs = [build(s) for s in F] + [build(s) for s in F]
     fps = [fingerprint(s) for s in F] * 2
     res.ev()
@@ -196,18 +249,22 @@ def sets_and_datasets(tier, res):
         res.nontrivial(("ds", va, vb))
 
 
+ENDPOINT_SHAPES = [(2, 2), (1, 2), (2, 1), (1, 4), (4, 1), (2, 3), (3, 2), (2, 4), (4, 2), (3, 3), (2, 5), (5, 2)]
+
+
 def endpoint_task(t, res):
     """coordinate box: every (start, end) on 2x2, one endpoint varied at a time on 2x3 / 3x3"""
     from maze_dataset.maze import LatticeMaze, SolvedMaze, TargetedLatticeMaze
 
-    for (r, c) in [(2, 2), (2, 3), (3, 3)]:
+    for (r, c) in ENDPOINT_SHAPES:
         cl = R.graph_from_bits(r, c, R.trees(r, c)[0])
-        box = [(i, j) for i in range(-2, r + 2) for j in range(-2, c + 2)]
+        hi = max(r, c) + 2  # the box reaches beyond BOTH dimensions on both axes (oblong grids: a bound taken from the wrong axis)
+        box = [(i, j) for i in range(-2, hi) for j in range(-2, hi)]
         inside = lambda p: 0 <= p[0] < r and 0 <= p[1] < c  # noqa: E731
-        if (r, c) == (2, 2):
+        if r * c <= 4:
             combos = list(itertools.product(box, box))
         else:
-            combos = [(p, (0, 0)) for p in box] + [((0, 0), p) for p in box] + [((r - 1, c - 1), p) for p in box]
+            combos = [(p, (0, 0)) for p in box] + [((0, 0), p) for p in box] + [((r - 1, c - 1), p) for p in box] + [(p, (r - 1, c - 1)) for p in box]
         ctors = {
             "Targeted": lambda s, e: TargetedLatticeMaze(connection_list=cl, start_pos=s, end_pos=e),
             "Targeted.from_lattice_maze": lambda s, e: TargetedLatticeMaze.from_lattice_maze(LatticeMaze(connection_list=cl), s, e),
@@ -282,7 +339,7 @@ def other_task(t, res):
 def run(ctx):
     F = family(ctx.tier)
     n = len(F)
-    step = max(1, n // 15)
+    step = max(1, n // 32)
     tasks = [dict(tier=ctx.tier, range=(i, min(n, i + step))) for i in range(0, n, step)]
     ctx.pmap("mzcheck.checks.c09", "pair_task", tasks)
     ctx.pmap("mzcheck.checks.c09", "other_task", [dict(tier=ctx.tier, what="sets"), dict(tier=ctx.tier, what="endpoints")])
@@ -294,6 +351,9 @@ def run(ctx):
 
 
 def replay(d, res):
+    if d["kind"] == "build":
+        buildable_family("thorough", res)
+        return
     if d["kind"] == "pair":
         replay_pair(d, res)
     elif d["kind"] == "endpoint":
